@@ -1379,8 +1379,26 @@ fn reuse_step(imp: Imp, p: &[u8], s: &RState, op: &Search, cc: &mut CaseCtx) -> 
     }
 }
 
+/// pattern whose first ten symbols never occur in the texts below: a text that starts with the
+/// rest of the pattern yields a hit at text position 0 with more than one block of leading
+/// insertions, whose traceback runs into the sentinel column of the column store
+const OVERHANG_PATTERN: &[u8] = b"aaaaaaaaaabcbbcbccbcbb";
+
 fn reuse_searches(tier: Tier, m: usize) -> Vec<Search> {
     let _ = tier;
+    if m == OVERHANG_PATTERN.len() {
+        // (reuse_patterns has no other pattern of this length)
+        let texts: Vec<&[u8]> = vec![b"", b"cbbcbcbbbccbcbcbbcbccbbcbcbcbbcbccbcbbbcbcbccbcbcbbcbbcbccbcb", b"bcbbcbccbcbbcbbcbc", b"cbcbcbcbcbcbcbcbcbcbcbcb"];
+        let mut out = vec![];
+        for t in texts {
+            for k in [0u64, 11, 14, m as u64] {
+                for api in [Api::Ends, Api::EagerFull, Api::EagerPartial, Api::LazyFull, Api::LazyPartial] {
+                    out.push(Search { t: show(t), k, api });
+                }
+            }
+        }
+        return out;
+    }
     let texts: Vec<&[u8]> = vec![b"", b"ab", b"abab", b"bbaabab", b"aaaaaaaaabaa", b"babababababababaabab", b"aabababababababaabbabababbabababababaabaab"];
     let mut ks = vec![0u64, 1, 3, m as u64, m as u64 + 1];
     ks.sort();
@@ -1399,8 +1417,8 @@ fn reuse_searches(tier: Tier, m: usize) -> Vec<Search> {
 fn reuse_patterns(tier: Tier) -> Vec<&'static [u8]> {
     match tier {
         // 17 and 26 symbols = 3 and 4 blocks of the u8 block-based matcher
-        Tier::Quick => vec![b"ab", b"abab", b"aaaaaaaab", b"abababababababaab"],
-        Tier::Thorough => vec![b"a", b"ab", b"abab", b"aaaaaaab", b"aaaaaaaab", b"abababababababaab", b"abababababababaabbabababba"],
+        Tier::Quick => vec![b"ab", b"abab", b"aaaaaaaab", b"abababababababaab", OVERHANG_PATTERN],
+        Tier::Thorough => vec![b"a", b"ab", b"abab", b"aaaaaaab", b"aaaaaaaab", b"abababababababaab", b"abababababababaabbabababba", OVERHANG_PATTERN],
     }
 }
 
